@@ -58,6 +58,31 @@ func miid(t *core.Tape, n, mult int) (st.MatrixPdf, int) {
 	return d, n * mult
 }
 
+// restrictStates: start and final state restrictions are part of the model (one
+// state each at most, see the note at the plain HMM)
+//
+// A setter that returns an error (a hierarchical or constrained transition
+// matrix cannot be renormalised for a final state) leaves the model half
+// updated; such a model is not used any further (errRestriction).
+func restrictStates(t *core.Tape, m int, setStart, setFinal func([]int) error) (string, error) {
+	r := ""
+	if t.Bool(1, 2) {
+		ss := []int{t.Choose(m)}
+		if err := setStart(ss); err != nil {
+			return "", err
+		}
+		r += fmt.Sprintf("start=%v,", ss)
+	}
+	if t.Bool(1, 2) {
+		fs := []int{t.Choose(m)}
+		if err := setFinal(fs); err != nil {
+			return "", err
+		}
+		r += fmt.Sprintf("final=%v,", fs)
+	}
+	return r, nil
+}
+
 // stateMapFor draws a state map for m states with contiguously numbered emissions
 func stateMapFor(t *core.Tape, m int) ([]int, int) {
 	stateMap := make([]int, m)
@@ -126,7 +151,9 @@ func genMatrixPdf(t *core.Tape) *dist {
 			}
 		}
 		if d, err := md.NewConstrainedHmm(weights(t, m), stochastic(t, m), stateMap, ed, cons); err == nil {
-			return &dist{name: fmt.Sprintf("matrix constrained hmm(states=%d,stateMap=%v,constraints=%v,normal(%d))", m, stateMap, cons, n), kind: "matrix", d: d, shape: [2]int{t.Range(1, 3), n}, tol: 1e-7}
+			if rs, err := restrictStates(t, m, d.SetStartStates, d.SetFinalStates); err == nil {
+				return &dist{name: fmt.Sprintf("matrix constrained hmm(states=%d,stateMap=%v,constraints=%v,%snormal(%d))", m, stateMap, cons, rs, n), kind: "matrix", d: d, shape: [2]int{t.Range(1, 3), n}, tol: 1e-7}
+			}
 		}
 	case 8:
 		nn := t.Range(1, 3)
@@ -164,12 +191,16 @@ func genMatrixPdf(t *core.Tape) *dist {
 		shape := [2]int{t.Range(1, 3), n}
 		if k == 2 {
 			if d, err := md.NewHmm(weights(t, m), stochastic(t, m), stateMap, ed); err == nil {
-				return &dist{name: fmt.Sprintf("matrix hmm(states=%d,stateMap=%v,normal(%d))", m, stateMap, n), kind: "matrix", d: d, shape: shape}
+				if rs, err := restrictStates(t, m, d.SetStartStates, d.SetFinalStates); err == nil {
+					return &dist{name: fmt.Sprintf("matrix hmm(states=%d,stateMap=%v,%snormal(%d))", m, stateMap, rs, n), kind: "matrix", d: d, shape: shape}
+				}
 			}
 		} else {
 			tree, tn := hmmTree(t, m)
 			if d, err := md.NewHierarchicalHmm(weights(t, m), stochastic(t, m), stateMap, ed, tree); err == nil {
-				return &dist{name: fmt.Sprintf("matrix hierarchical hmm(states=%d,stateMap=%v,%s,normal(%d))", m, stateMap, tn, n), kind: "matrix", d: d, shape: shape}
+				if rs, err := restrictStates(t, m, d.SetStartStates, d.SetFinalStates); err == nil {
+					return &dist{name: fmt.Sprintf("matrix hierarchical hmm(states=%d,stateMap=%v,%s,%snormal(%d))", m, stateMap, tn, rs, n), kind: "matrix", d: d, shape: shape}
+				}
 			}
 		}
 	case 3:
@@ -193,7 +224,9 @@ func genMatrixPdf(t *core.Tape) *dist {
 			ed[i], _ = miid(t, n, mult)
 		}
 		if d, err := md.NewShapeHmm(weights(t, m), stochastic(t, m), stateMap, ed); err == nil {
-			return &dist{name: fmt.Sprintf("shape hmm(states=%d,stateMap=%v,vector iid(normal(%d),%d))", m, stateMap, n, rows), kind: "matrix", d: d, shape: [2]int{rows + t.Range(0, 2), n}}
+			if rs, err := restrictStates(t, m, d.SetStartStates, d.SetFinalStates); err == nil {
+				return &dist{name: fmt.Sprintf("shape hmm(states=%d,stateMap=%v,%svector iid(normal(%d),%d))", m, stateMap, rs, n, rows), kind: "matrix", d: d, shape: [2]int{rows + t.Range(0, 2), n}}
+			}
 		}
 	case 5:
 		nn := t.Range(1, 3)
@@ -347,7 +380,7 @@ func stochastic(t *core.Tape, n int) ad.Matrix {
 
 func genVectorPdf(t *core.Tape, depth int) (st.VectorPdf, string) {
 	k := t.Choose(12)
-	if depth >= 1 && k >= 5 {
+	if depth >= 1 && k >= 5 && k != 8 && k != 9 {
 		k = t.Choose(5)
 	}
 	var d st.VectorPdf
@@ -411,7 +444,13 @@ func genVectorPdf(t *core.Tape, depth int) (st.VectorPdf, string) {
 		}
 		name += ")"
 		var h *vd.Hmm
-		h, err = vd.NewHmm(weights(t, m), stochastic(t, m), stateMap, ed)
+		trm := stochastic(t, m)
+		if t.Bool(1, 3) {
+			// the transition matrix handed over as a transposed view
+			trm = trm.T()
+			name += "transposed transition matrix,"
+		}
+		h, err = vd.NewHmm(weights(t, m), trm, stateMap, ed)
 		if err == nil {
 			// start and final state restrictions are part of the model.  One
 			// state each at most: the library keeps them in a Go map and writes
@@ -496,14 +535,22 @@ func genVectorPdf(t *core.Tape, depth int) (st.VectorPdf, string) {
 			name = fmt.Sprintf("constrained hmm(states=%d,stateMap=%v,constraints=%v,%s)", m, stateMap, cons, names)
 			var h *vd.Chmm
 			if h, err = vd.NewConstrainedHmm(weights(t, m), stochastic(t, m), stateMap, ed, cons); err == nil {
-				d = h
+				var rs string
+				if rs, err = restrictStates(t, m, h.SetStartStates, h.SetFinalStates); err == nil {
+					name += rs
+					d = h
+				}
 			}
 		} else {
 			tree, tn := hmmTree(t, m)
 			name = fmt.Sprintf("hierarchical hmm(states=%d,stateMap=%v,%s,%s)", m, stateMap, tn, names)
 			var h *vd.Hhmm
 			if h, err = vd.NewHierarchicalHmm(weights(t, m), stochastic(t, m), stateMap, ed, tree); err == nil {
-				d = h
+				var rs string
+				if rs, err = restrictStates(t, m, h.SetStartStates, h.SetFinalStates); err == nil {
+					name += rs
+					d = h
+				}
 			}
 		}
 	case 7:
@@ -521,22 +568,24 @@ func genVectorPdf(t *core.Tape, depth int) (st.VectorPdf, string) {
 }
 
 func genDist(t *core.Tape) *dist {
+	var r *dist
 	switch t.Pick([]int{5, 4, 2}) {
 	case 0:
 		d, n := genScalarPdf(t, 0)
-		return &dist{name: n, kind: "scalar", d: d}
+		r = &dist{name: n, kind: "scalar", d: d}
 	case 1:
 		d, n := genVectorPdf(t, 0)
-		r := &dist{name: n, kind: "vector", d: d}
-		if strings.Contains(n, "constrained hmm") {
-			// the family's constructor (also used by the importer) normalises the
-			// tied transition parameters with a root finder that stops at 1e-8
-			r.tol = 1e-7
-		}
-		return r
+		r = &dist{name: n, kind: "vector", d: d}
 	default:
-		return genMatrixPdf(t)
+		r = genMatrixPdf(t)
 	}
+	if strings.Contains(r.name, "constrained hmm") && r.tol == 0 {
+		// the family's constructor (also used by the importer) normalises the
+		// tied transition parameters with a root finder that stops at 1e-8;
+		// also when the model is wrapped (vector id / iid, matrix vector iid)
+		r.tol = 1e-7
+	}
+	return r
 }
 
 func (d *dist) importConfig(cfg st.ConfigDistribution) (st.ConfigurableDistribution, error) {
